@@ -173,21 +173,9 @@ func c09sDump(text string) string {
 		insOnly(st.ChunkIns), outsOnly(st.ChunkOuts), res, ret}, "|")
 }
 
-// the harness's copy of parsenum.go roundUpTo (trusted: strconv and this
-// arithmetic): the model keeps the text of the `threads` token, the parser
-// stores roundUpTo(float32, 100) and the formatter prints it with %g
-func c09sCanonThreads(raw string) string {
-	var v float32
-	if i, err := strconv.ParseInt(raw, 10, 64); err == nil {
-		v = float32(i)
-	} else if f, err := strconv.ParseFloat(raw, 32); err == nil {
-		v = float32(f)
-	} else {
-		return "?" + raw
-	}
-	v = c09RoundUpTo(v, 100) // harness/c09.go: the one copy of parsenum.go roundUpTo
-	return fmt.Sprintf("%g", v)
-}
+// the model keeps the text of the `threads` token, the parser stores roundUpTo(float32, 100) and
+// the formatter prints it with %g: the REAL conversion is the oracle (harness/c09.go c09RealThreads)
+func c09sCanonThreads(raw string) string { return c09RealThreads(raw) }
 
 // c09sCanon rewrites the threads word of the model's `some <Stage>` reply
 func c09sCanon(rep string) string {
@@ -318,7 +306,15 @@ var c09sThreads = [][]string{
 	{"1e+06", "1e6", "1000000", "1E+06"}, {"100", "1e2", "100.0"}, {"0", "0.0", "0e0"}, {"-1", "-1.0", "-1e0"}, {"3", "3.0"},
 }
 
+// MB values of generated stages: the whole range of the model's wfMB, |mb| < 2^18 = 256 GB, the range
+// where the exact reading of the model and the float32 reading of the real parser agree on every
+// text formatGB prints (Props.C09.readGB32_inverts_formatGB), with the boundary itself; values from
+// 256 GB on (finding F29) are exercised by the mem_gb stream of harness/c09res.go (up to 2^24 and
+// 2^62 MB, classified gb-float32-rounding).
 func c09sMB(c *Ctx) int64 {
+	if c.Rng.Intn(12) == 0 {
+		return []int64{262143, -262143, 262142, 261121, -261121, 262143 - 1024, 131072, -131073}[c.Rng.Intn(8)]
+	}
 	switch c.Rng.Intn(7) {
 	case 0, 1:
 		return -int64(1 + c.Rng.Intn(1023)) // negative, below 1 GB
